@@ -89,6 +89,20 @@ func serialize(ls ...gopacket.SerializableLayer) ([]byte, error) {
 		if !bytes.Equal(d.Bytes(), fresh) {
 			staleSeen = fmt.Sprintf("serialised bytes depend on what an earlier packet left in the buffer: fresh %x, reused (filled with %02x) %x", fresh, fill, d.Bytes())
 			out = append([]byte(nil), d.Bytes()...)
+		} else if fill == 0xA5 {
+			// the same values serialised again and again into the same buffer (cleared in between, as a connection does):
+			// the 2nd … 6th result must be the first (skipped for layers that draw randomness per serialisation)
+			for k := 2; k <= 6; k++ {
+				d.Clear()
+				if err := gopacket.SerializeLayers(d, serOpts, ls...); err != nil {
+					staleSeen = fmt.Sprintf("serialisation %d of the same values into one buffer fails", k)
+					break
+				}
+				if !bytes.Equal(d.Bytes(), fresh) {
+					staleSeen = fmt.Sprintf("serialisation %d of the same values into one buffer differs from the first: %x vs %x", k, d.Bytes(), fresh)
+					break
+				}
+			}
 		}
 	}
 	return out, nil
